@@ -100,6 +100,14 @@ impl SwiftField for Field56A {
             });
         }
 
+        if lines.len() > bic_line_idx + 1 {
+            return Err(ParseError::InvalidFormat {
+                message: format!(
+                    "Field 56A has {} line(s) after the BIC",
+                    lines.len() - bic_line_idx - 1
+                ),
+            });
+        }
         let bic = parse_bic(lines[bic_line_idx])?;
 
         Ok(Field56A {
